@@ -209,5 +209,42 @@ func TestC16(t *testing.T) {
 			}
 		}
 	}
+	// long lives: requests spaced at a fixed fraction of T for many multiples of T are never cut; the same with the
+	// spacing at or above T is cut at the first deadline
+	longSeq := func(frac int, n int) []int {
+		// events: 0..4 = advance 0.2,0.5,0.8,1.0,1.2 T ; 8 = deliver rest of request
+		var seq []int
+		for i := 0; i < n; i++ {
+			seq = append(seq, frac, 8)
+		}
+		return seq
+	}
+	for ti, T := range []time.Duration{100 * time.Millisecond, time.Second, 10 * time.Minute} {
+		for frac := 0; frac <= 4; frac++ {
+			if !r.Mine(1000 + ti*5 + frac) {
+				continue
+			}
+			seq := longSeq(frac, 60)
+			closedAt, why, trace := c16Run(t, w.Root, T, seq)
+			r.Transition(int64(len(seq)))
+			key := sprintf("long|%v|frac%d", T, frac)
+			r.State(key)
+			r.Nontrivial(key)
+			if why == "" {
+				if frac <= 2 && closedAt >= 0 {
+					why = sprintf("cut-before-deadline|a client issuing a request every %.1fT was cut at event %d", c16Events[frac].Frac, closedAt)
+				}
+				if frac >= 3 && closedAt != 0 {
+					why = sprintf("not-cut-at-deadline|a client that stays silent for %.1fT was not cut at the first deadline (closed at event %d)", c16Events[frac].Frac, closedAt)
+				}
+			}
+			if why != "" {
+				sg, msg, _ := strings.Cut(why, "|")
+				r.Violation("C16:"+sg, sprintf("T=%v long run with spacing %.1fT: %s", T, c16Events[frac].Frac, msg), map[string]any{"T": T.String(), "trace_tail": trace[max(0, len(trace)-6):]})
+			} else {
+				r.Outcome(sprintf("long-run-spacing-%.1fT-ok", c16Events[frac].Frac))
+			}
+		}
+	}
 	r.Assume("virtual clock of testing/synctest; vnet deadlines use bubble timers; processing takes zero virtual time, so 'the instant the server started waiting' is the instant the previous request was completed (or the connection accepted)")
 }
